@@ -38,7 +38,8 @@ Inductive cev :=
 | ELcStore | ELcCloseDone | ELcLock | ELcTake | ELcDrainDone | ELcDrainEnd | ELcUnlock | ELcRelease
 | EAccept                   (* Accept takes a queued connection *)
 | ECcDone                   (* Conn.Close of an accepted connection: connWG.Done (its first action, once) *)
-| ECloser.                  (* the closer goroutine: connWG.Wait has returned, the socket is closed *)
+| ECloser                   (* the closer goroutine: connWG.Wait has returned, the socket is closed *)
+| ELockProbe.               (* somebody else (Conn.Close deleting its map entry) takes connLock: it must be free *)
 
 Definition lock_free (s : cstate) : bool :=
   match rl s, lc s with
@@ -99,6 +100,7 @@ Definition cstep (s : cstate) (e : cev) : option cstate :=
         Some {| wg := wg s - 1; qlen := qlen s; qcap := qcap s; n_open := n_open s - 1; accepting := accepting s; lref := lref s;
                 sock_closed := sock_closed s; rl := rl s; lc := lc s |}
       else None
+  | ELockProbe => if lock_free s then Some s else None
   | ECloser =>
       if (wg s =? 0) && negb (sock_closed s) then
         Some {| wg := wg s; qlen := qlen s; qcap := qcap s; n_open := n_open s; accepting := accepting s; lref := lref s;
@@ -171,3 +173,36 @@ Proof.
   unfold inflight, b2z in C. rewrite Hr, Hl, Hlr, Hq, Hn in C. simpl in C.
   destruct (sock_closed s) eqn:Es; [reflexivity|]. rewrite C in Hc. simpl in Hc. discriminate.
 Qed.
+
+
+(* ---- replay of scheduler logs (trace validation of udp/conn.go under the controlled scheduler) -----------------------
+   entries [code; argument]: 0 ERlEnter (argument 1: remote known or not accepting), 1 ERlAdd, 2 ERlSend, 3 ERlUnlock,
+   4 ELcStore, 5 ELcCloseDone, 6 ELcLock, 7 ELcTake, 8 ELcDrainDone, 9 ELcDrainEnd, 10 ELcUnlock, 11 ELcRelease,
+   12 EAccept, 13 ECcDone, 14 ECloser, 15 ELockProbe *)
+Definition cev_of (o : zs) : option cev :=
+  match o with
+  | 0 :: k :: _ => Some (ERlEnter (negb (k =? 0)))
+  | 1 :: _ => Some ERlAdd | 2 :: _ => Some ERlSend | 3 :: _ => Some ERlUnlock
+  | 4 :: _ => Some ELcStore | 5 :: _ => Some ELcCloseDone | 6 :: _ => Some ELcLock | 7 :: _ => Some ELcTake
+  | 8 :: _ => Some ELcDrainDone | 9 :: _ => Some ELcDrainEnd | 10 :: _ => Some ELcUnlock | 11 :: _ => Some ELcRelease
+  | 12 :: _ => Some EAccept | 13 :: _ => Some ECcDone | 14 :: _ => Some ECloser | 15 :: _ => Some ELockProbe
+  | _ => None
+  end.
+
+Fixpoint c12_follow (s : cstate) (log : list zs) (idx : Z) : cstate * option Z :=
+  match log with
+  | [] => (s, None)
+  | o :: rest =>
+      match cev_of o with
+      | Some e => match cstep s e with Some s' => c12_follow s' rest (idx + 1) | None => (s, Some idx) end
+      | None => (s, Some idx)
+      end
+  end.
+
+(* conf [9; seed; backlog]; answer [1; socket closed; accepted connections still open; listener reference held] | [0; index] *)
+Definition c12_replay (conf : zs) (log : list zs) : list zs :=
+  let cap := match conf with _ :: _ :: c :: _ => c | _ => 1 end in
+  match c12_follow (c_init cap) log 0 with
+  | (s, None) => [[1; b2z (sock_closed s); n_open s; b2z (lref s)]]
+  | (_, Some i) => [[0; i]]
+  end.
